@@ -3,6 +3,7 @@ import re
 
 from cv import flow, pred, rules
 from cv.rules import events_of
+from props import common
 
 TITLE = "Listing a version follows the stitching rule and is strictly ordered"
 TECHNIQUE = 'static analysis: state-machine extraction from the MIR of Stitch::next (transition relation, guards, termination measure, resume-point provenance)'
@@ -215,13 +216,13 @@ def run(ck, w):
         ck.fail(o, pb.name, "no BandId::previous", "search loop does not step")
     o = ck.ob("C08.4c", "Stitch::next: every cycle through the state dispatch consumes an entry, a hunk, or moves to a strictly earlier band")
     # cycles: arm regions that come back to the dispatch. Each must contain a consuming event.
-    consume = re.compile(r"Peekable<I> as std::iter::Iterator>::next$|index::IndexHunkIter::(try_)?next|previous_existing_band|band::Band::open|band_is_closed")
+    consume = re.compile(r"Peekable<I> as std::iter::Iterator>::next$|IntoIter<T, A> as std::iter::Iterator>::next$|index::IndexHunkIter::(try_)?next|previous_existing_band|band::Band::open|band_is_closed")
     bad = []
     for vi, name in enumerate(vn):
         tgt = arms.get(vi)
         if tgt is None:
             continue
-        cons_nodes = {e.bb for e in sn.events if e.bb in sn.live and consume.search(e.name)}
+        cons_nodes = {e.bb for e in sn.events if e.bb in sn.live and consume.search(e.name)} | {e.bb for e in common.stitch_buffer_next(sn)}
         reach = sn.reachable(tgt, removed_nodes=cons_nodes | set())
         if sb in reach and name != "Done":
             # can return to the dispatch without consuming anything
@@ -333,7 +334,8 @@ def run(ck, w):
     for bb, s in rets:
         orig = flow.origins_x(lib, sn, s["rv"]["ops"][0])
         calls = flow.origin_calls(orig)
-        if not calls or not all(c.endswith("Peekable<I> as std::iter::Iterator>::next") for c in calls) or [x for x in orig if x[0] in ("agg", "arith")]:
+        buf_next = {e.name for e in common.stitch_buffer_next(sn)}
+        if not calls or not all(c in buf_next for c in calls) or [x for x in orig if x[0] in ("agg", "arith")]:
             good = False
             ck.fail(o, sn.name, "returned entry is not the buffered one", "derives from %s" % flow.origin_summary(orig))
     if good:
